@@ -361,6 +361,14 @@ def main(args):
         for vlen in ((1, 3) if tier == 'quick' else (0, 1, 2, 3, 4, 6)):
             units.append({'kind': 'reader', 'module': 'stdnum.numdb', 'template': ti, 'vlen': vlen, 'L': vlen,
                           'max_paths': 4000 if tier == 'quick' else 40000, 'timeout': 60 if tier == 'quick' else 600})
+    if getattr(args, 'units_only', False):
+        return units
+    if tier != 'quick':
+        # thorough = the quick tier's units first (larger caps), then everything else while the budget lasts
+        import copy
+        qa = copy.copy(args)
+        qa.tier, qa.units_only = 'quick', True
+        units = common.plan_thorough(units, main(qa))
     rep = common.Report('C10', tier)
     rep.assumptions = ASSUMPTIONS
     rep.bounds = {'shapes': shapes, 'registries': registries(), 'templates': [t for t, n in TEMPLATES]}
@@ -371,6 +379,6 @@ def main(args):
             u = res['unit']
             print('[%d/%d] %s %s %s %s %s unknown=%s' % (done, total, u['kind'], u.get('registry') or u.get('shape') or u.get('template'), u['L'],
                                                         res.get('outcomes', res.get('error', res.get('skipped'))), res.get('wall_s'), res.get('unknown')), file=sys.stderr)
-    for res in common.run_units(unit_fn, common.shuffle_units(units), 400 if tier == 'quick' else 2000, progress, deadline):
+    for res in common.run_units(unit_fn, common.shuffle_units(units), (lambda u: u.get('timeout', 200) * 2 + 100), progress, deadline):
         rep.add_unit(res)
     return rep.finish()
